@@ -25,6 +25,23 @@ var methodVars = []methodVar{
 	{"OPTIONS", "", ""}, {"OPTIONS", "GET", ""}, {"OPTIONS", "POST", ""}, {"OPTIONS", "PATCH", ""},
 	{"OPTIONS", "GET", "same"}, {"OPTIONS", "DELETE", "same"}, {"OPTIONS", "", "same"},
 	{"PATCH", "", ""}, {"TRACE", "", ""}, {"get", "", ""},
+	// a non-OPTIONS request that carries the preflight header: the header must be ignored
+	{"POST", "GET", ""}, {"GET", "POST", ""}, {"PATCH", "GET", ""},
+}
+
+// acrmMethods x acrmValues: the sub-table "any method x any Access-Control-Request-Method".
+var acrmMethods = []string{"GET", "HEAD", "POST", "PUT", "DELETE", "PATCH", "TRACE"}
+var acrmValues = []string{"GET", "HEAD", "POST", "PUT", "DELETE", "PATCH", "get", "G E T,?"}
+
+func acrmVars() []methodVar {
+	var out []methodVar
+	for _, m := range acrmMethods {
+		for _, a := range acrmValues {
+			out = append(out, methodVar{m, a, ""})
+		}
+		out = append(out, methodVar{m, "GET", "same"}, methodVar{m, "POST", "same"})
+	}
+	return out
 }
 
 type target struct {
